@@ -2,6 +2,7 @@ package main
 
 import (
 	"fmt"
+	"reflect"
 	"strings"
 
 	"go.pennock.tech/tabular"
@@ -372,26 +373,29 @@ func (w *world) obsProps() M {
 	}
 	for ti, t := range w.tables {
 		probe(t, "table", ti+1, 0)
+		chain = append(chain, []interface{}{"table", ti + 1, 0, chainLen(w.atables[ti])})
 		for n := 0; n <= t.NColumns(); n++ {
 			probe(t.Column(n), "column", ti+1, n)
+			chain = append(chain, []interface{}{"column", ti + 1, n, chainLen(t.Column(n))})
 		}
 		hs := t.Headers()
 		for j := range hs {
 			probe(&hs[j], "hcell", ti+1, j+1)
-			chain = append(chain, []interface{}{"hcell", ti + 1, j + 1, chainLen(fmt.Sprintf("%#v", &hs[j]))})
+			chain = append(chain, []interface{}{"hcell", ti + 1, j + 1, chainLen(&hs[j])})
 		}
 	}
 	for ri, r := range w.rows {
 		probe(r, "row", ri+1, 0)
+		chain = append(chain, []interface{}{"row", ri + 1, 0, chainLen(r)})
 		cs := r.Cells()
 		for j := range cs {
 			probe(&cs[j], "cell", ri+1, j+1)
-			chain = append(chain, []interface{}{"cell", ri + 1, j + 1, chainLen(fmt.Sprintf("%#v", &cs[j]))})
+			chain = append(chain, []interface{}{"cell", ri + 1, j + 1, chainLen(&cs[j])})
 		}
 	}
 	for i, c := range w.cellvars {
 		probe(c, "cellvar", i+1, 0)
-		chain = append(chain, []interface{}{"cellvar", i + 1, 0, chainLen(fmt.Sprintf("%#v", c))})
+		chain = append(chain, []interface{}{"cellvar", i + 1, 0, chainLen(c)})
 	}
 	for i, h := range w.handles {
 		probe(h, "handle", i+1, 0)
@@ -399,9 +403,37 @@ func (w *world) obsProps() M {
 	return M{"vals": orEmpty(out), "chain": orEmpty(chain)}
 }
 
-// chainLen counts the links printed by the debug form of a cell (each link
-// prints as Value(...) or .withValue(...)). Keys and values of the driver's
-// universe never contain that text; the measuring keys of the renderers do not either.
-func chainLen(gostr string) int {
-	return strings.Count(gostr, "Value(")
+// chainLen counts the links of an owner's property chain by walking the (unexported) fields with
+// reflection: owner.propertyImpl.properties -> *valueProperty{chain, key, val} -> ... (read-only).
+func chainLen(owner interface{}) int {
+	v := reflect.ValueOf(owner)
+	for v.Kind() == reflect.Ptr || v.Kind() == reflect.Interface {
+		if v.IsNil() {
+			return 0
+		}
+		v = v.Elem()
+	}
+	if v.Kind() != reflect.Struct {
+		return -1
+	}
+	pi := v.FieldByName("propertyImpl")
+	if !pi.IsValid() {
+		return -1
+	}
+	cur := pi.FieldByName("properties")
+	n := 0
+	for depth := 0; depth < 100000; depth++ {
+		for cur.Kind() == reflect.Interface || cur.Kind() == reflect.Ptr {
+			if cur.IsNil() {
+				return n
+			}
+			cur = cur.Elem()
+		}
+		if cur.Kind() != reflect.Struct || cur.Type().Name() != "valueProperty" {
+			return n
+		}
+		n++
+		cur = cur.FieldByName("chain")
+	}
+	return n
 }
